@@ -28,9 +28,11 @@ impl Parser {
                 .user_data()
                 .has_name_been_mapped_in_function(ident.name())
         } else {
+            // `modify` addresses the captured variable, not a same-named variable that the
+            // innermost scope may have declared itself (see `can_modify_if_applicable`)
             input
                 .user_data()
-                .get_dependency_flags_from_name(ident.name())
+                .get_dependency_flags_from_name_skip_n(ident.name(), 1)
                 .map(|x| x.0.to_owned())
         };
 
